@@ -527,7 +527,14 @@ class Range(object):
                     is_valid = True
                 item_index += 1
             if not is_valid:
-                raise errors.RangeValueError("%s is %r but must be within range: %s" % (name, value, self), location)
+                try:
+                    value_text = "%r" % (value,)
+                except ValueError:
+                    # Python refuses to convert integer numbers with thousands of digits to text.
+                    value_text = "a number with too many digits to show"
+                raise errors.RangeValueError(
+                    "%s is %s but must be within range: %s" % (name, value_text, self), location
+                )
 
 
 class DecimalRange(Range):
